@@ -12,7 +12,8 @@ RULE = ("equilibrium (Moebius) and non-equilibrium (bulged) arc tissues and stra
         "by any angle (uniform, and angles that put a tangent within 1e-9..1e-1 rad of an axis), reflection, translation up to "
         "1e4 tissue sizes, scale 1e-3..1e3; series of 3 frames x time-unit factor 1e-3..1e3 and length-unit factor 1e-3..1e3 "
         "with adimensional velocities. distinct = (family, cells, unknowns, transform class, fit, method); non-trivial = at "
-        "least one equation")
+        "least one equation"
+        ' Added after the seeded rounds: the same mesh objects moved in place and inferred again; tiny / huge units; pose pairs with an opening-angle limit; shipped Surface Evolver meshes in two poses.')
 MIN_DECISIVE = {"quick": 120, "thorough": 1800}
 REQUIRED_COUNTERS = ["pairs", "coefficients:compared", "tensions:compared", "pressures:compared", "dynamic:compared",
                      "limited:compared"]
